@@ -204,6 +204,40 @@ Proof. intros n. rewrite INR_IZR_INZ. rewrite N_nat_Z. reflexivity. Qed.
 Lemma R_ofN : forall n : N, ofN NumR n = INR (N.to_nat n).
 Proof. intros n. unfold ofN. cbn [nofZ NumR]. apply R_IZR_of_N. Qed.
 
+(* the -0.0 normalisation of build() is the identity in exact arithmetic *)
+Lemma R_norm_zero : forall x : carrier NumR,
+  (if (x =? n0)%num then n0 else x) = x.
+Proof.
+  intros x. destruct (x =? n0)%num eqn:E; [|reflexivity].
+  cbn [neqb NumR] in E. apply Reqb_true in E. symmetry. exact E.
+Qed.
+
+Lemma R_build_kt_start : forall fpow (b : builder NumR),
+  kt_start NumR (build NumR fpow b) = b_kt_start NumR b.
+Proof. intros fpow b. unfold build. cbn [kt_start]. apply R_norm_zero. Qed.
+
+(* with a ratio given, the factor is max(0, 1 - ratio) for every ratio above -f64::MAX: the cap
+   at f64::MAX only touches ratios no one can mean *)
+Theorem R_build_factor_ratio : forall fpow (b : builder NumR) (r : R),
+  b_kt_ratio NumR b = Some r -> 1 - r <= IZR (2 ^ 1024 - 2 ^ 971) ->
+  factor NumR (build NumR fpow b) = Rmax 0 (1 - r).
+Proof.
+  intros fpow b r Hr Hle. unfold build. cbn [factor]. rewrite Hr.
+  rewrite R_nmin_Rmin.
+  assert (E : nmax (NN:=NumR) n0 (nsub (n:=NumR) n1 r) = Rmax 0 (1 - r)).
+  { unfold nmax. rewrite R_is_nan_false. cbn [nltb nsub NumR].
+    change (n0 (NN:=NumR)) with 0. change (n1 (NN:=NumR)) with 1.
+    unfold Rmax.
+    destruct (Rltb (1 - r) 0) eqn:A.
+    - apply Rltb_true in A. destruct (Rle_dec 0 (1 - r)); lra.
+    - apply Rltb_false in A. destruct (Rltb 0 (1 - r)) eqn:B.
+      + destruct (Rle_dec 0 (1 - r)); lra.
+      + apply Rltb_false in B. destruct (Rle_dec 0 (1 - r)); lra. }
+  rewrite E. unfold fmax_. cbn [nofZ NumR].
+  apply Rmin_left. apply Rmax_lub; [|exact Hle].
+  apply IZR_le. vm_compute. discriminate.
+Qed.
+
 Theorem R_build_factor_finish : forall (b : builder NumR) (fin : R),
   b_kt_ratio NumR b = None -> b_kt_finish NumR b = Some fin ->
   0 < b_kt_start NumR b ->
@@ -241,7 +275,8 @@ Theorem R_build_cooled_finish : forall (b : builder NumR) (fin : R),
 Proof.
   intros b fin Hr Hf Hs Hfin Hi c.
   unfold c. rewrite (R_build_factor_finish b fin Hr Hf Hs Hi).
-  cbn [build kt_start steps inner].
+  rewrite R_build_kt_start.
+  cbn [build steps inner].
   rewrite R_IZR_of_N.
   apply R_factor_reaches_finish; try assumption.
   pose proof (R_loops_pos (b_steps NumR b) (b_inner NumR b) Hi). lia.
